@@ -1024,6 +1024,11 @@ func vC15ConcreteMsg(r *rand.Rand) *dns.Msg {
 	for i := []int{1, 1, 1, 0, 2}[r.Intn(5)]; i > 0; i-- {
 		m.Question = append(m.Question, dns.Question{Name: pick(), Qtype: dns.TypeA, Qclass: dns.ClassINET})
 	}
+	if len(m.Question) > 0 && vC15Force == nil && r.Intn(6) == 0 {
+		// question names the library treats specially (packQuestion is the packer's own code):
+		// empty = no octets but one octet of Len(), unqualified = ErrFqdn, root, empty label
+		m.Question[r.Intn(len(m.Question))].Name = vc15gen.VC15OddQName(r)
+	}
 	mk := func() dns.RR {
 		h := dns.RR_Header{Name: pick(), Class: dns.ClassINET, Ttl: uint32(r.Intn(100000)), Rdlength: uint16(40000 + r.Intn(100))}
 		switch r.Intn(13) {
@@ -1193,7 +1198,7 @@ func vC15ConcreteCase(tr *vC15Trace, r *rand.Rand) {
 // is packed; the minimal failing inputs of the finding and of every seeded change live in
 // corpus/C15/*.json and are replayed first on every run.
 type vC15CorpusRec struct {
-	T      string `json:"t"`      // A AAAA NS CNAME MX TXT NULL OPT
+	T      string `json:"t"`      // A AAAA NS CNAME MX TXT NULL OPT | NIL WRAP PRIVATE (inadmissible)
 	Name   string `json:"name"`   // owner
 	TTL    uint32 `json:"ttl"`
 	IP     string `json:"ip"`     // hex octets (A / AAAA)
@@ -1241,9 +1246,25 @@ func vC15CorpusMsg(e *vC15CorpusEntry) *vc15gen.VC15Case {
 		m.Question = append(m.Question, dns.Question{Name: q.Name, Qtype: uint16(q.Type), Qclass: dns.ClassINET})
 	}
 	objs := map[string]dns.RR{}
+	var clean []bool
 	build := func(recs []vC15CorpusRec) []dns.RR {
 		var out []dns.RR
 		for _, c := range recs {
+			switch c.T { // records the packer must decline on (not library-built: Clean = false)
+			case "NIL":
+				out, clean = append(out, nil), append(clean, false)
+				continue
+			case "WRAP":
+				inner := &dns.A{Hdr: dns.RR_Header{Name: c.Name, Rrtype: dns.TypeA, Class: dns.ClassINET, Ttl: c.TTL}, A: net.IPv4(192, 0, 2, 7).To4()}
+				out, clean = append(out, &vc15gen.VC15WrapRR{RR: inner}), append(clean, false)
+				continue
+			case "PRIVATE":
+				p := &dns.PrivateRR{Data: &vc15gen.VC15PrivData{Data: "corpus"}}
+				p.Hdr = dns.RR_Header{Name: c.Name, Rrtype: 65280, Class: dns.ClassINET, Ttl: c.TTL}
+				out, clean = append(out, p), append(clean, false)
+				continue
+			}
+			clean = append(clean, true)
 			if c.ID != "" {
 				if o, ok := objs[c.ID]; ok {
 					out = append(out, o)
@@ -1279,6 +1300,7 @@ func vC15CorpusMsg(e *vC15CorpusEntry) *vc15gen.VC15Case {
 				h.Class = 1232
 				rr = &dns.OPT{Hdr: h}
 			default:
+				clean = clean[:len(clean)-1]
 				continue
 			}
 			if c.Rrtype != nil {
@@ -1295,11 +1317,6 @@ func vC15CorpusMsg(e *vC15CorpusEntry) *vc15gen.VC15Case {
 		return out
 	}
 	m.Answer, m.Ns, m.Extra = build(e.Msg.Answer), build(e.Msg.Ns), build(e.Msg.Extra)
-	n := len(m.Answer) + len(m.Ns) + len(m.Extra)
-	clean := make([]bool, n)
-	for i := range clean {
-		clean[i] = true
-	}
 	return &vc15gen.VC15Case{Msg: m, Tags: []string{"corpus:" + e.ID}, Clean: clean}
 }
 
